@@ -742,7 +742,7 @@ def part_a(chk, quick):
     for shift in range(len(TYPE_ROLES)):
         for b in bins(typ):
             jobs.append([(TYPE_ROLES[(j + shift) % len(TYPE_ROLES)], w) for j, w in enumerate(b)])
-    hard = set(PY_HARD) | MATLAB_RESERVED | {"null", "true", "int", "namespace", "yardl", "binary", "ndjson", "hdf5", "std", "numpy", "typing", "types", "datetime"}
+    hard = set(PY_HARD) | MATLAB_RESERVED | {"null", "true", "int", "namespace", "yardl", "binary", "ndjson", "hdf5", "std", "numpy", "typing", "types", "datetime"} | set(CLIB_FUNCTIONS)
     nswords = words_of(hard, False)[1] if quick else typ
     ex = Explorer(chk, "a")
 
@@ -828,11 +828,16 @@ BASE_NAMES = ["Rq", "Eq", "Lq", "Uq", "Aq", "Gq", "Pq", "Tq", "fq", "gq", "hq", 
               "tq", "wq", "kq", "lq", "jq", "bq", "eq", "uq", "rq", "ll", "al"]
 
 
+# functions the C library declares in the global namespace (a sample of those reachable from the runtime's includes): a C++
+# namespace, which yardl derives from the package's namespace in snake_case, cannot share their name
+CLIB_FUNCTIONS = ["trunc", "time", "exit", "index", "abs", "round", "log", "printf", "remove", "rename", "signal", "clock", "free", "div"]
+
+
 def word_class(w, gen=None):
     """Where a candidate word comes from (part of the finding key): a keyword list, or the pattern by which the generator
     derives an identifier from a baseline name (PqWriterBase -> derived:XWriterBase)."""
     if not _SP:
-        for cls, toks in (("cpp-keyword", CPP_KEYWORDS), ("c-library-macro", CPP_MACROS), ("python-keyword-or-builtin", PY_KEYWORDS),
+        for cls, toks in (("cpp-keyword", CPP_KEYWORDS), ("c-library-macro", CPP_MACROS), ("c-library-function", CLIB_FUNCTIONS), ("python-keyword-or-builtin", PY_KEYWORDS),
                           ("matlab-keyword-or-builtin", MATLAB_KEYWORDS), ("yaml-special", YAML_WORDS)):
             for t in toks:
                 for sp in spellings(t, False):
@@ -880,6 +885,8 @@ def classify(items, target, stage, detail):
             return "namespace-is-reserved-word/matlab/%s" % items[0][0]
         if target == "python" and (snake in python_modules() or w.lower() in python_modules()):
             return "namespace-shadows-python-module/%s" % items[0][0]
+        if target == "cpp" and snake in CLIB_FUNCTIONS:
+            return "namespace-equals-c-library-function/%s" % items[0][0]
         if target == "cpp" and w.lower() in ("yardl", "binary", "ndjson", "hdf5", "detail", "std"):
             return "namespace-equals-namespace-used-by-generated-cpp/%s/%s" % (items[0][0], w.lower())
     st = stage.split(":")[0]
